@@ -196,10 +196,10 @@ Proof. intros. rewrite !rev_append_rev, !app_nil_r. simpl. now rewrite <- app_as
 Lemma args_loop : forall rest b done n ie out r f L,
   forallb int_binding (b :: rest) = true -> consistent L -> incl (map fst ie) L -> incl (cvars (b :: rest)) L ->
   CoreSem.crun n P (CoreSem.Arg (CoreSem.fs_arg b) (cenv_of ie)
-                      (CoreSem.MArgs done (map CoreSem.fs_arg rest) (cenv_of ie) (CoreSem.FCall f))) out = r ->
+                      (CoreSem.MArgs done (map CoreSem.fs_arg rest) (cenv_of ie) (CoreSem.FinCall f))) out = r ->
   good r ->
   exists n' zs, n' < n /\ omap (ilookup ie) (cvars (b :: rest)) = Some zs /\
-    match CoreSem.finish_args P (CoreSem.FCall f) (rev_append done [] ++ map conv zs) with
+    match CoreSem.finish_args P (CoreSem.FinCall f) (rev_append done [] ++ map conv zs) with
     | CoreSem.SNext c' => CoreSem.crun n' P c' out
     | CoreSem.SPrint nl z c' => CoreSem.crun n' P c' ((nl, z) :: out)
     | CoreSem.SHalt o => finish out o
@@ -287,7 +287,7 @@ Proof.
   - (* call *)
     cbn [CoreSem.fs2c_stmt] in H. core_step H Hg n.
     assert (Hloop : exists n' zs, n' <= n /\ omap (ilookup ie) (cvars args) = Some zs /\
-      match CoreSem.finish_args P (CoreSem.FCall f) (map conv zs) with
+      match CoreSem.finish_args P (CoreSem.FinCall f) (map conv zs) with
       | CoreSem.SNext c' => CoreSem.crun n' P c' out
       | CoreSem.SPrint nl z c' => CoreSem.crun n' P c' ((nl, z) :: out)
       | CoreSem.SHalt o => finish out o
